@@ -218,6 +218,7 @@ var profiles = map[string]map[string]int{
 	"cycle-burst": {"scan": 40, "tick": 12, "pod_arrive": 22, "pod_schedule": 8, "pod_finish": 0, "launch": 1, "register": 3, "cordon": 0, "ext_taint": 0, "ext_untaint": 0, "force": 0, "annotate": 0, "node_gone": 0, "asg_edit": 0, "restart": 0, "lag": 0, "shuffle": 2},
 	// more nodes than max_nodes: operators bump the desired capacity, nodes register, pods land on tainted nodes (tolerations)
 	"overmax": {"scan": 30, "tick": 14, "pod_arrive": 3, "pod_schedule": 12, "pod_finish": 7, "launch": 8, "register": 10, "cordon": 1, "ext_taint": 10, "ext_untaint": 0, "force": 2, "annotate": 0, "node_gone": 8, "asg_edit": 0, "restart": 1, "lag": 0, "shuffle": 1},
+	"annotlate": {"scan": 30, "tick": 20, "pod_arrive": 3, "pod_schedule": 5, "pod_finish": 10, "launch": 2, "register": 4, "cordon": 2, "ext_taint": 8, "ext_untaint": 1, "force": 3, "annotate": 8, "node_gone": 1, "asg_edit": 0, "restart": 1, "lag": 0, "shuffle": 3},
 	"lock": {"scan": 38, "tick": 16, "pod_arrive": 14, "pod_schedule": 4, "pod_finish": 4, "launch": 4, "register": 6, "cordon": 5, "ext_taint": 4, "ext_untaint": 0, "force": 3, "annotate": 0, "node_gone": 0, "asg_edit": 2, "restart": 2, "lag": 0, "shuffle": 1},
 }
 
@@ -264,6 +265,14 @@ func genCfg(r *rand.Rand, o genOpts) world.Cfg {
 		c.Slow, c.Fast = 1, 2
 		c.Soft = 1 + r.Intn(2)
 		c.Hard = c.Soft + 2 + r.Intn(3)
+		c.Cool = 1
+		return c
+	}
+	if o.profile == "annotlate" {
+		c.Min, c.Max = 0, 6+r.Intn(3)
+		c.Slow, c.Fast = 1, 2
+		c.Soft = 1 + r.Intn(2)
+		c.Hard = c.Soft + 1 + r.Intn(2)
 		c.Cool = 1
 		return c
 	}
@@ -467,7 +476,56 @@ func genOverMax(r *rand.Rand, w *world.World, nextID map[string]int, step int) (
 	return Event{}, false
 }
 
+// genAnnotLate scripts the opening "a node is tainted and seen by a scan while it cannot be removed yet, is annotated no-delete
+// afterwards, drains, and its grace periods pass": the annotation must protect it whenever it was added.
+func genAnnotLate(r *rand.Rand, w *world.World, nextID map[string]int, step int) (Event, bool) {
+	g := w.Gorder[0]
+	st := w.Project()
+	gs := st.Groups[g]
+	ids := world.SortedKeys(gs.Api)
+	if len(ids) == 0 {
+		return Event{}, false
+	}
+	x := ids[nextID["#x"]%len(ids)]
+	onX := 0
+	for _, p := range gs.Pods {
+		if p.Node == x {
+			onX++
+		}
+	}
+	ph := nextID["#phase"]
+	next := func(e Event) (Event, bool) { nextID["#phase"] = ph + 1; return e, true }
+	switch {
+	case ph == 0:
+		nextID["#x"] = r.Intn(len(ids))
+		return next(Event{Ev: "shuffle", A: 1 + r.Intn(1000000)})
+	case ph == 1:
+		if gs.Api[x].Taint.Has {
+			return next(Event{Ev: "shuffle", A: 1 + r.Intn(1000000)})
+		}
+		return next(Event{Ev: "ext_taint", N: x, S: "now", A: st.Now})
+	case ph == 2:
+		return next(Event{Ev: "scan"})
+	case ph == 3:
+		return next(Event{Ev: "annotate", N: x, S: []string{"x", "reason"}[r.Intn(2)]})
+	case ph == 4 && onX > 0:
+		return Event{Ev: "pod_finish", G: g, N: x}, true
+	case ph >= 4 && ph < 4+2*(gs.Cfg.Hard+2):
+		if (ph-4)%2 == 0 {
+			return next(Event{Ev: "tick"})
+		}
+		return next(Event{Ev: "scan"})
+	}
+	return Event{}, false
+}
+
 func genStep(r *rand.Rand, w *world.World, o genOpts, nextID map[string]int, step int) Event {
+	if o.profile == "annotlate" && nextID["#scripted"] >= 0 {
+		if e, ok := genAnnotLate(r, w, nextID, step); ok {
+			return e
+		}
+		nextID["#scripted"] = -1
+	}
 	if o.profile == "fromzero" {
 		return genFromZero(r, w, nextID, step)
 	}
